@@ -250,7 +250,7 @@ PROPERTIES = {
     'scope': 'kernels only: Position order / Location contains / union algebra over all u32 values; the lexer\'s tracked '
              'line/column equals the position of the consumed byte offset for whitespace, strings, line and block comments; '
              'the parser\'s `last_location` is the location of the last consumed token and looking ahead does not move it (peek / consume); '
-             'the ranges built by parse_type_parameter and parse_identifier_annot enclose their parts; a member access `o.m<T>` encloses its object and its type arguments (the member name when there are none) and a call encloses its callee and argument list (parse_function_call_or_field_access_with_start); the node built by each of the six binary-operator productions (|| && comparisons + - * / % ::) has the two parsed operands, the operator read, and a range enclosing both operands; `!e` and `-e` run from the operator token over the argument (parse_unary_expression); an if-else runs from its keyword over the else branch actually parsed, block or nested if-else (parse_if_else); a match case encloses its pattern and ends at its body or at its comma (parse_pattern_to_expression); a match expression runs from its keyword to the token consumed as its closing brace (parse_match); an import line runs from its keyword to its semicolon, or to the end of the module name when there is none (parse_module); a parenthesized expression list runs from its opening to the token consumed as its closing parenthesis (parse_parenthesized_expression_list_with_start); a function type annotation runs from its opening parenthesis over its return type, and annotation::T::location (verbatim, real enum) is the range stored in the variant; explicit type arguments run from `<` to the token consumed as `>` (parse_optional_type_arguments), a type-parameter list from `<` to `>` (parse_type_parameters); a class / interface declaration and its member block end at the same closing brace (parse_class, parse_interface); a member definition's range is extended over its body (parse_class_member_definition, verbatim); the other union call sites of the parser are not covered',
+             'the ranges built by parse_type_parameter and parse_identifier_annot enclose their parts; a member access `o.m<T>` encloses its object and its type arguments (the member name when there are none) and a call encloses its callee and argument list (parse_function_call_or_field_access_with_start); the node built by each of the six binary-operator productions (|| && comparisons + - * / % ::) has the two parsed operands, the operator read, and a range enclosing both operands; `!e` and `-e` run from the operator token over the argument (parse_unary_expression); an if-else runs from its keyword over the else branch actually parsed, block or nested if-else (parse_if_else); a match case encloses its pattern and ends at its body or at its comma (parse_pattern_to_expression); a match expression runs from its keyword to the token consumed as its closing brace (parse_match); an import line runs from its keyword to its semicolon, or to the end of the module name when there is none (parse_module); a parenthesized expression list runs from its opening to the token consumed as its closing parenthesis (parse_parenthesized_expression_list_with_start); a function type annotation runs from its opening parenthesis over its return type, and annotation::T::location (verbatim, real enum) is the range stored in the variant; explicit type arguments run from `<` to the token consumed as `>` (parse_optional_type_arguments), a type-parameter list from `<` to `>` (parse_type_parameters); a class / interface declaration and its member block end at the same closing brace (parse_class, parse_interface); the range of a member definition is extended over its body (parse_class_member_definition, verbatim); the other union call sites of the parser are not covered',
   },
   'C17': {
     'verus': ['heap'],
